@@ -203,6 +203,8 @@ HAND = [
      ["CC(=O)OC.OC", "CC(=O)OC.O", "CC(=O)OC.OO", "CC(=O)OC.O.OC"], [False], ["E"]),
     ("aminolysis-explicit", "[CH3:1][C:2](=[O:3])[Cl:4].[N:5]([H:6])([H:7])[H:8]>>[CH3:1][C:2](=[O:3])[N:5]([H:7])[H:8].[Cl:4][H:6]",
      ["CC(=O)Cl.NC", "CC(=O)Cl.N", "CC(=O)Cl.CNC"], [False], ["E"]),
+    # sizes: > 100 atoms, three-digit node ids on the substrate side
+    ("long-chains", "[C:1][Br:2].[C:3][I:4]>>[C:1][I:4].[C:3][Br:2]", ["C" * 52 + "Br." + "C" * 50 + "I"], [False], ["I"]),
     ("three-component", "[CH3:1][Br:2].[CH3:3][I:4].[CH3:5][Cl:6]>>[CH3:1][I:4].[CH3:3][Cl:6].[CH3:5][Br:2]", ["CBr.CI.CCl", "CCBr.CCI.CCCl"], [False], ["I"]),
     ("single-symmetric", "[CH3:1][CH2:2][CH3:3]>>[CH3:1][CH:2]=[CH2:3]", ["CCC", "CC(C)C", "CCCC"], [False], ["I"]),
     ("ring-symmetric", "[cH:1]1[cH:2][cH:3][cH:4][cH:5][cH:6]1.[Br:7][Br:8]>>[cH:1]1[cH:2][cH:3][cH:4][cH:5][c:6]1[Br:7].[BrH:8]", ["c1ccccc1.BrBr", "Cc1ccccc1.BrBr"], [False], ["I"]),
